@@ -31,12 +31,15 @@ LEVEL_NOTE = ("Partial in the sense of DESIGN section 8: durability after power 
               "assumptions: rename within a directory is atomic; os.CreateTemp never re-uses a name; the content streamed into Set is the content "
               "that was hashed (no concurrent modification of outputs); no deletion from the CAS during a build.")
 TECHNIQUE = "Lean 4 invariant proofs over two transition systems + trace-inclusion correspondence under fault enumeration + on-disk audit oracle"
+PROP_MODULES = ["GrogModel.Props.C07", "GrogModel.Props.ComposeStores"]
 OBLIGATIONS = [
     "Grog.C07.visible_is_complete_set",
     "Grog.C07.cas_content_addressed",
     "Grog.C07.store_sound_invariant",
     "Grog.C07.result_refs_present",
     "Grog.C07.recovery",
+    "Grog.Compose.recovery_cache_sound",
+    "Grog.Compose.recovery_next_build_eq_clean",
 ]
 ASSUMPTIONS = [
     "rename(2) within one directory is atomic; CreateTemp names are never re-used (trusted base)",
